@@ -47,7 +47,7 @@ import BV.Props.C06Hasher
 import BV.Props.C02Part
 
 namespace BV.Props.C06Pure
-open BV.Multi BV.Multi.Res BV.Lemmas.Multi BV.Stream
+open BV.Multi BV.Multi.Res BV.Lemmas.Multi BV.Stream BV.StreamJob
 
 /-! ## 1. PURITY as a function of what the job is handed -/
 
@@ -153,20 +153,8 @@ example (P : BV.Hasher.BasicP) (hP : P.Ok) (input : List Nat) (cap : Nat) :
 
 /-! ## 2. the modelled part of a job -/
 
-/-- `compress_part`'s parameter changes: jobs `≥ 1` are catable without magic number, every job appendable -/
-def jobParams (p : Params) (i : Nat) : Params :=
-  if i = 0 then { p with appendable := true }
-  else { p with catable := true, magic := false, appendable := true }
-
-/-- a job on a FRESH encoder over the stream machine (job 0; any job at quality 0/1 or with an
-empty prefix): one FINISH call into the job buffer, then `compress_part`'s loop on what it observed.
-A modelled panic of the call is the job's panic; running out of fuel (excluded by C20
-`call_terminates`) is reported as `spin`. -/
-def streamJob (o : Oracle) (fuel : Nat) (p : Params) (i t n : Nat) (piece : Bytes) : JobRes :=
-  match compressStream o fuel { St.new with params := jobParams p i } 2 piece (maxCompressedSize piece.length) with
-  | .ok (s', io', r) => compressPart i t n [BV.Props.C02Part.observed piece.length s' io' r]
-  | .panic => .panic
-  | .fuel => .spin
+/-! `jobParams`, `streamJob`: BV/Model/StreamJob.lean (tied to the real `compress_part` by the `sjob`
+lines of stage `favor`). -/
 
 /-- the payload encoder is asked through `Req` only, and a `Req` is six numbers/flags:
 two requests with the same call site, positions and flags are THE SAME request — there is no field
